@@ -1,15 +1,180 @@
 (* ArithSpec.v — specification of the Decimal operations, written from the
-   property statements over exact integers.  [None] is the overflow signal
-   (panic for operators, None for checked_ variants). *)
-From FP Require Import Machine RoundSpec.
+   property statements (C01-C05, C08, C10, C14, C15) over exact integers; a
+   Decimal stands for the rational coeff / 10^nfd.  Nothing here refers to the
+   model.  For every operation the specification is an acceptance predicate on
+   observable outcomes [out]. *)
+From FP Require Import Machine RoundSpec Out.
 
-(* C05: round to n fractional digits, n possibly negative *)
+Definition MINC : Z := - 2 ^ 127.
+
+(* what a specification demands of an operation's outcome *)
+Inductive sres :=
+| SVal (d : dec)          (* exactly this Decimal *)
+| SFail                   (* the failure signal: panic (operator) / None (checked_) *)
+| SEither (d : dec)       (* this Decimal or the failure signal (coefficient = -2^127, see DESIGN §2) *)
+| SValue (c p : Z)        (* any Decimal of value c / 10^p with at most p fractional digits *)
+| SValueOrFail (c p : Z). (* the same, or the failure signal *)
+
+Definition veq (c p : Z) (d : dec) : bool :=
+  (coeff d * 10 ^ p =? c * 10 ^ (nfd d)) && (0 <=? nfd d) && (nfd d <=? p).
+
+(* panicking operator *)
+Definition acc_op (s : sres) (o : out) : bool :=
+  match s, o with
+  | SVal d, OV e => dec_eqb d e
+  | SFail, OP => true
+  | SEither d, OV e => dec_eqb d e
+  | SEither _, OP => true
+  | SValue c p, OV e => veq c p e
+  | SValueOrFail c p, OV e => veq c p e
+  | SValueOrFail _ _, OP => true
+  | _, _ => false
+  end.
+(* checked_ variant: None is the failure signal, a panic is never accepted *)
+Definition acc_chk (s : sres) (o : out) : bool :=
+  match s, o with
+  | SVal d, OV e => dec_eqb d e
+  | SFail, ON => true
+  | SEither d, OV e => dec_eqb d e
+  | SEither _, ON => true
+  | SValue c p, OV e => veq c p e
+  | SValueOrFail c p, OV e => veq c p e
+  | SValueOrFail _ _, ON => true
+  | _, _ => false
+  end.
+
+(* an exact (unrounded) coefficient must fit the i128 *)
+Definition exact (c n : Z) : sres := if in_range I128 c then SVal (mkdec c n) else SFail.
+(* a rounded coefficient: representable in Decimal::MIN..=MAX, or -2^127, or not *)
+Definition classify (c n : Z) : sres :=
+  if Z.abs c <=? MAXC then SVal (mkdec c n)
+  else if c =? MINC then SEither (mkdec c n) else SFail.
+
+Definition is_zero (d : dec) : bool := coeff d =? 0.
+Definition is_one (d : dec) : bool := coeff d =? 10 ^ nfd d.
+
+(* ---------- C01 ---------- *)
+Definition addsub_spec (sub : bool) (x y : dec) : sres :=
+  let p := Z.max (nfd x) (nfd y) in
+  let a := coeff x * 10 ^ (p - nfd x) in
+  let b := coeff y * 10 ^ (p - nfd y) in
+  let s := if sub then a - b else a + b in
+  if in_range I128 a && in_range I128 b && in_range I128 s then SVal (mkdec s p) else SFail.
+
+(* ---------- C02 ---------- *)
+Definition mul_spec (m : mode) (x y : dec) : sres :=
+  if is_zero x || is_zero y then SVal DZERO
+  else if is_one y then SVal x
+  else if is_one x then SVal y
+  else
+    let s := nfd x + nfd y in
+    if s <=? 18 then exact (coeff x * coeff y) s
+    else classify (rnd m (coeff x * coeff y) (10 ^ (s - 18))) 18.
+
+Definition checked_mul_spec (x y : dec) : sres :=
+  if is_zero x || is_zero y then SVal DZERO
+  else if is_one y then SVal x
+  else if is_one x then SVal y
+  else
+    let s := nfd x + nfd y in
+    if s <=? 18 then exact (coeff x * coeff y) s else SFail.
+
+(* Decimal by integer: exact, the Decimal's scale, no short-cuts *)
+Definition mul_int_spec (d : dec) (i : Z) : sres := exact (coeff d * i) (nfd d).
+
+(* ---------- C03 ---------- *)
+(* strip trailing fractional zeros *)
+Fixpoint strip (fuel : nat) (c n : Z) : Z * Z :=
+  match fuel with
+  | O => (c, n)
+  | S f => if (0 <? n) && (c mod 10 =? 0) then strip f (c / 10) (n - 1) else (c, n)
+  end.
+Definition normal (c n : Z) : dec :=
+  if c =? 0 then DZERO else let '(c', n') := strip 18 c n in mkdec c' n'.
+Definition map_sres (f : dec -> dec) (s : sres) : sres :=
+  match s with SVal d => SVal (f d) | SEither d => SEither (f d) | s => s end.
+
+Definition div_spec (m : mode) (x y : dec) : sres :=
+  if is_zero y then SFail
+  else if is_zero x then SVal DZERO
+  else if is_one y then SVal x
+  else
+    let r := rndq m (coeff x * 10 ^ (18 + nfd y)) (coeff y * 10 ^ nfd x) in
+    map_sres (fun d => normal (coeff d) (nfd d)) (classify r 18).
+
+(* ---------- C04 ---------- *)
+Definition mul_rounded_spec (m : mode) (x y : dec) (n : Z) : sres :=
+  if 18 <? n then SFail
+  else if is_zero x || is_zero y then SVal DZERO
+  else
+    let s := nfd x + nfd y in
+    if s <=? n then exact (coeff x * coeff y) s
+    else classify (rnd m (coeff x * coeff y) (10 ^ (s - n))) n.
+
+Definition div_rounded_spec (m : mode) (x y : dec) (n : Z) : sres :=
+  if 18 <? n then SFail
+  else if is_zero y then SFail
+  else if is_zero x then SVal DZERO
+  else classify (rndq m (coeff x * 10 ^ (n + nfd y)) (coeff y * 10 ^ nfd x)) n.
+
+(* the integer multiple k * q nearest to x; any representation of that value *)
+Definition quantize_spec (m : mode) (x q : dec) : sres :=
+  if is_zero q then SFail
+  else
+    let k := rndq m (coeff x * 10 ^ nfd q) (coeff q * 10 ^ nfd x) in
+    let c := k * coeff q in
+    if Z.abs c <=? MAXC then SValue c (nfd q)
+    else if c =? MINC then SValueOrFail c (nfd q) else SFail.
+
+(* ---------- C05 ---------- *)
 Definition round_spec (m : mode) (d : dec) (n : Z) : option dec :=
   if n >=? nfd d then Some d else
   let r := rnd m (coeff d) (10 ^ (nfd d - n)) in
   if n >=? 0 then Some (mkdec r n)
   else let c := r * 10 ^ (- n) in
        if in_range I128 c then Some (mkdec c 0) else None.
+Definition round_sres (m : mode) (d : dec) (n : Z) : sres :=
+  match round_spec m d n with Some r => SVal r | None => SFail end.
 
 Definition sig {A} (o : option A) : res A :=
   match o with Some a => Val a | None => Panic end.
+
+(* ---------- C10 ---------- *)
+Definition rem_spec (x y : dec) : sres :=
+  if is_zero y then SFail
+  else
+    let p := Z.max (nfd x) (nfd y) in
+    let a := coeff x * 10 ^ (p - nfd x) in
+    let b := coeff y * 10 ^ (p - nfd y) in
+    let r := Z.rem a b in
+    if (nfd x <? nfd y) && negb (in_range I128 a) then SValueOrFail r p else SValue r p.
+
+(* ---------- C08 ---------- *)
+Definition cmp_spec (x y : dec) : comparison :=
+  Z.compare (coeff x * 10 ^ nfd y) (coeff y * 10 ^ nfd x).
+Definition eq_spec (x y : dec) : bool :=
+  match cmp_spec x y with Eq => true | _ => false end.
+
+(* ---------- C15 ---------- *)
+(* floor(d), ceil(d), trunc(d) as integers; fract as coefficient at d's scale *)
+Definition floor_spec (d : dec) : Z := coeff d / 10 ^ nfd d.
+Definition ceil_spec (d : dec) : Z := - ((- coeff d) / 10 ^ nfd d).
+Definition trunc_spec (d : dec) : Z := Z.quot (coeff d) (10 ^ nfd d).
+Definition fract_spec (d : dec) : Z := Z.rem (coeff d) (10 ^ nfd d).
+(* floor(log10 |c|) for c <> 0, by search *)
+Fixpoint ilog10_aux (fuel : nat) (v acc : Z) : Z :=
+  match fuel with
+  | O => acc
+  | S f => if v <? 10 then acc else ilog10_aux f (v / 10) (acc + 1)
+  end.
+Definition ilog10 (v : Z) : Z := ilog10_aux 60 v 0.
+Definition magnitude_spec (d : dec) : Z :=
+  if coeff d =? 0 then 0 else ilog10 (Z.abs (coeff d)) - nfd d.
+
+(* ---------- C14 ---------- *)
+Inductive toint_s := TSOk (v : Z) | TSNotInt | TSRange.
+Definition to_int_spec (t : ity) (d : dec) : toint_s :=
+  if coeff d mod 10 ^ nfd d =? 0 then
+    let v := coeff d / 10 ^ nfd d in
+    if in_range t v then TSOk v else TSRange
+  else TSNotInt.
